@@ -126,7 +126,10 @@ func (encryptor *MySQLTokenizeQuery) OnBind(ctx context.Context, statement sqlpa
 		case *sqlparser.SQLVal:
 			var err error
 			index, err := mysql.ParsePlaceholderIndex(value)
-			if err != nil {
+			if err == encryptor_base.ErrInvalidPlaceholder {
+				// a literal, not a placeholder: there is no value to bind (OnQuery already tokenized the literal)
+				continue
+			} else if err != nil {
 				return values, false, err
 			}
 			if index >= len(values) {
